@@ -21,11 +21,11 @@ CFG = {
                   "presentation subset. PROVED for all inputs: UTF-8 byte layer; layer 1 (flow collections + double-quoted "
                   "scalars/keys; render_load_flow); layer 2 (block mappings/sequences with nesting, indentation steps, compact "
                   "forms, plain/single/double scalars and keys, every null/bool/int spelling, flow collections as leaves; "
-                  "render_load_block) for a bare single document; of layer 3 the literal block scalars `|` (all chomping "
-                  "indicators, content indentation 1-9 with or without indentation indicator, any admissible text) as values "
-                  "anywhere below the root, inside the layer-2 structures (same theorem render_load_block); line-break layer 5 "
-                  "for every stream (render_load_breaks) and combined with layers 1, 2 and 3-literal. Layers 3 (folded style, "
-                  "root-level block scalars), 4 (comments/blank lines), 6 (anchors/aliases), "
+                  "render_load_block) for a bare single document; layer 3 below the root: literal `|` and folded `>` block scalars "
+                  "(all chomping indicators, content indentation 1-9 with or without indentation indicator, any admissible "
+                  "text, folds at any set of admissible spaces) as values anywhere inside the layer-2 structures (same theorem "
+                  "render_load_block); line-break layer 5 for every stream (render_load_breaks) and combined with layers 1-3. "
+                  "Root-level block scalars (rest of layer 3), layers 4 (comments/blank lines), 6 (anchors/aliases), "
                   "7 (markers/multi-document) are `render_load_partial_<layer>`: kernel-evaluated on explicit finite families "
                   "only; their quantifier is carried by the correspondence (the driver re-evaluates loadRef(render s) = trees on "
                   "every generated stream). The 7 000-line Rust oracle parser is NOT modelled, only its observable result "
